@@ -828,11 +828,14 @@ package flags
 
 // The separate-token form -x V / --name V is refused exactly when V has option
 // syntax, except for a negative number given to a signed numeric option.
+// a negative number as written: a minus sign followed by a digit, or by a decimal point and a digit (-5, -0x1p-2, -.5)
+//@ pure func isDigit(b byte) bool = b >= '0' && b <= '9'
+//@ pure func negNumber(arg string) bool = len(arg) > 1 && arg[0] == '-' && (isDigit(arg[1]) || (arg[1] == '.' && len(arg) > 2 && isDigit(arg[2])))
 //@ func (option *Option) isValidValue(arg string) (err error)
 //@   props C02 C04
 //@   pure
 //@   requires option != nil
-//@   ensures[C02] option.isValueValidator() == nil ==> ((err == nil) == (!argumentIsOption(arg) || (signedType(option.value.Type()) && len(arg) > 1 && arg[0] == '-' && arg[1] >= '0' && arg[1] <= '9')))
+//@   ensures[C02] option.isValueValidator() == nil ==> ((err == nil) == (!argumentIsOption(arg) || (signedType(option.value.Type()) && negNumber(arg))))
 //@   ensures[C02] option.isValueValidator() != nil ==> err == option.isValueValidator().IsValidValue(arg)
 //@   ensures is(err, *Error) ==> as(err, *Error) != nil
 //@   assigns nothing
